@@ -48,12 +48,14 @@ _t("C03",
    "property-based testing: rapid stateful model vs independent derivation oracle", "DESIGN.md §3 C03")
 _t("C05",
    "The same machine with a lock-state model: every private-material accessor of every managed address is exercised after every step and must succeed exactly when the model says "
-   "unlocked; wrong passphrases must fail and leave it locked; after each transition to locked a build-tagged memory report must show all clear-text key buffers wiped.",
+   "unlocked; wrong passphrases must fail and leave it locked; after every operation a manager that is locked or watching-only must show, in a build-tagged memory report, all "
+   "clear-text key buffers wiped. A wallet-level unit drives key export, derivation by path, key import, account creation and passphrase change through the wallet's entry points.",
    "Trusted: the lock-state model; the read-only hook VerifSecretsReport (build tag verif) for the wiping half.",
    "property-based testing: rapid stateful model + instrumentation hook", "DESIGN.md §3 C05")
 _t("C08",
    "Differential oracle: after every generated step (committed, rolled back by error, or failed commit) a freshly opened manager on the same database answers the same query set as "
-   "the running one; any difference, or a next address that differs from what a restart would issue, is a violation.",
+   "the running one; any difference, or a next address that differs from what a restart would issue, is a violation. Open known finding F22 (address extension caches before "
+   "the commit) is excluded by reloading the manager after a rolled-back extension, and counted.",
    "Trusted: the database proxy that turns commits into failures; waddrmgr.Open as the definition of 'what a restart would say'.",
    "property-based testing: rapid stateful generation with differential (running vs reopened) oracle", "DESIGN.md §3 C08")
 _t("C07",
@@ -63,7 +65,8 @@ _t("C07",
    "property-based testing + coverage-guided fuzzing with arithmetic/validity oracles", "DESIGN.md §3 C07")
 _t("C17",
    "Exhaustive-per-case tampering (every bit flip, every truncation) of real ciphertexts, passphrase near misses, parameter encodings and manager-level cross-key decryption, "
-   "plus two native fuzz targets. One genuine, unfixable deviation (F8) is excluded by an exact predicate and reported as KNOWN-FINDING.",
+   "a unit sealing concurrently with lock/unlock cycles, plus two native fuzz targets. One genuine, unfixable deviation (F8) is excluded by an exact predicate and reported as "
+   "KNOWN-FINDING.",
    "Trusted: nothing beyond the Go standard library for comparison; secretbox/scrypt are the code under test's dependencies.",
    "property-based testing + fuzzing: round-trip and tamper-rejection oracles", "DESIGN.md §3 C17")
 _t("C18",
@@ -82,7 +85,8 @@ _t("C15",
 
 _t("C11",
    "Generated plans of committed, failing and panicking transactions (all walletdb entry points) over nested buckets, sequences and cursors are executed on a real bbolt file and "
-   "compared with a nested-map model after every transaction and after reopening; a watchdog turns a leaked writer lock into a reported violation. Two genuine cursor defects of "
+   "compared with a nested-map model after every transaction and after reopening; a watchdog turns a leaked writer lock into a reported violation; concurrent Batch callers are "
+   "held to the per-caller all-or-nothing contract. Two genuine cursor defects of "
    "the pinned bbolt dependency (F14, F15) are excluded by exact predicates and reported as KNOWN-FINDING.",
    "Trusted: internal/dbmodel (nested maps with copy-on-begin); one transaction at a time.",
    "property-based testing + coverage-guided fuzzing: model-based (reference map) oracle", "DESIGN.md §3 C11")
